@@ -514,3 +514,31 @@ mod tests {
         fast_pairing(&g1, &g2);
     }
 }
+
+/// Verification-only wrappers around the private powering and final-exponentiation
+/// steps (a child module may call its parent's private inherent methods).
+#[cfg(john_yu_sm9_core_verif)]
+pub mod verif {
+    use super::*;
+
+    pub const VERIF_SM9_S: u128 = SM9_S;
+    pub const VERIF_SM9_LOOP_N: u128 = SM9_LOOP_N;
+    pub const VERIF_SM9_A2: u128 = SM9_A2;
+    pub const VERIF_SM9_A3: u128 = SM9_A3;
+
+    pub fn fq12_pow_u128(x: &Fq12, e: u128) -> Fq12 {
+        x.pow(e)
+    }
+    pub fn final_exp_first_chunk(x: &Fq12) -> Option<Fq12> {
+        x.final_exponentiation_first_chunk()
+    }
+    pub fn final_exponentiation_last_chunk(x: &Fq12) -> Fq12 {
+        x.final_exponentiation_last_chunk()
+    }
+    pub fn final_exp_last_chunk(x: &Fq12) -> Fq12 {
+        x.final_exp_last_chunk()
+    }
+    pub fn prepared_coeffs_len(p: &G2Prepared) -> usize {
+        p.coeffs.len()
+    }
+}
